@@ -26,6 +26,10 @@ def vlq(v):
             return out
 
 
+# the pre-transpilation file's name, by line offset of the original map: one of them is hostile to String.prototype.replace patterns
+ONAME = {100: "orig.ts", 7: "pri$&ce$1$$.ts", 1000: "orig.ts", 0: "orig.ts"}
+
+
 def throwing_program(rng, modified=True, chained=False, evals=False):
     """Returns (code, {function name or '<top>': 1-based line}).  With evals, the error is thrown from code compiled by eval
     inside two functions of the file, so the stack has several frames whose eval origin lies in the file."""
@@ -68,8 +72,10 @@ def throwing_program(rng, modified=True, chained=False, evals=False):
     if evals:
         L.append("  return eval(\"(function inEvalA() { return deep(msg); })()\");")
     else:
-        L.append(rng.choice(["  throw new Error(msg);", "  throw new Error(msg); // boom"]) if not modified else
-                 rng.choice(["  throw new Error(msg);", "  throw new Error(msg + '!');", "  throw new Error(`${msg}!`);"]))
+        L.append(rng.choice(["  throw new Error(msg);", "  throw new Error(msg); // boom", "  throw new Error('first line\\nat least two lines');"]) if not modified else
+                 rng.choice(["  throw new Error(msg);", "  throw new Error(msg + '!');", "  throw new Error(`${msg}!`);",
+                             # a message whose later lines look like frames
+                             "  throw new Error(msg + '\\nat least one more line\\n    at fake (nowhere.js:1:1)');"]))
     L.append("}")
     filler()
     code_so_far = "\n".join(L)
@@ -89,7 +95,7 @@ def throwing_program(rng, modified=True, chained=False, evals=False):
         # half of the original maps list a source that is never used BEFORE the one that is: the ids of the chained map are its own
         two = rng.random() < 0.5
         mappings = ";".join("A" + ("C" if (two and i == 0) else "A") + vlq(off if i == 0 else 1) + "A" for i in range(n))
-        omap = {"version": 3, "sources": (["unused.ts", "orig.ts"] if two else ["orig.ts"]), "names": [], "mappings": mappings}
+        omap = {"version": 3, "sources": (["unused.ts", ONAME[off]] if two else [ONAME[off]]), "names": [], "mappings": mappings}
         code += "//# sourceMappingURL=data:application/json;base64," + base64.b64encode(json.dumps(omap).encode()).decode() + "\n"
     return code, lines, off
 
@@ -114,7 +120,7 @@ def run(O, P):
         rng = random.Random("%s/c11/%d" % (O.seed, i))
         kind = ["single", "rewrite-lookup-rewrite", "then-notmodified", "interleaved", "chained", "single", "chained-rewrite-twice"][i % 7]
         chained = kind.startswith("chained")
-        cfg = vlib.default_config(chainSourceMap=chained)
+        cfg = vlib.default_config(chainSourceMap=chained, telemetryVerbosity=["DEBUG", "OFF", "INFORMATION", "MANDATORY", "DEBUG"][i % 5])
         fa, fb = "/app/src/a%d.js" % i, "/app/lib/b%d.js" % i
         if i % 4 == 3:
             # spellings that are not normalised paths
@@ -179,7 +185,7 @@ def run(O, P):
             if isinstance(r, dict) and "step_threw" in r:
                 bad("the package API threw: %s" % r["step_threw"][:300]); failed = True; break
             if st["op"] == "lookup" and st.get("hostile"):
-                known_file = any(s["op"] == "rewrite" and s["file"] == st["file"] and s.get("response", {}).get("metrics", {}).get("status") == "modified" for s in h["steps"])
+                known_file = any(s["op"] == "rewrite" and s["file"] == st["file"] and bool(((s.get("response") or {}).get("content"))) for s in h["steps"])
                 if not known_file and (r is None or r.get("path") != st["file"] or r.get("line") != st["line"] or r.get("column") != (st["column"] if st["column"] is not None else 0)):
                     bad("lookup in a file nothing is known about is not the identity: asked %r got %r" % ((st["file"], st["line"], st["column"]), r)); failed = True; break
         if failed:
@@ -194,7 +200,7 @@ def run(O, P):
                 if isinstance(st, str) and st.startswith("PREPARE THREW"):
                     bad("prepareStackTrace threw: " + st[:200]); failed = True; break
                 fr = parse_frames(st) if isinstance(st, str) else [dict(f, fn=f.get("fn")) for f in (st or [])]
-                want_file = os.path.join(os.path.dirname(file), "orig.ts") if off else file
+                want_file = os.path.join(os.path.dirname(file), ONAME[off]) if off else file
                 # a path and its normalised spelling name the same file
                 NP = lambda x: os.path.normpath(x) if isinstance(x, str) and x else x
                 mine = [f for f in fr if NP(f.get("file")) in (NP(file), NP(want_file))]
